@@ -233,6 +233,9 @@ func TestWorker(t *testing.T) {
 			rc := runCase(t, f, tier, seed, core.NewTape(seed, 1), core.NewTape(seed, 2))
 			out.Runs++
 			out.Hashes[fmt.Sprint(seed)] = rc.Hash() + "/" + rc.Class
+			if d := os.Getenv("VERIF_DUMPLOG"); d != "" {
+				_ = os.WriteFile(fmt.Sprintf("%s.%d", d, seed), []byte(strings.Join(rc.Log, "\n")), 0o644)
+			}
 		}
 		writeOut()
 
